@@ -126,7 +126,8 @@ impl<'p> Painter<'p> {
             // This means file formats like Makefile/Dockerfile/Rakefile etc. will get highlighted,
             // but 1-4 short filenames will not -- even if they, as a whole, match an extension:
             // 'rs' will not get highlighted, while 'x.rs' will.
-            if !extension.is_empty() || file_name.len() > 4 {
+            // (a hidden file has no extension in this sense: `.env` is such a whole name)
+            if !extension.is_empty() || file_name.len() > 4 || file_name.starts_with('.') {
                 if let Some(syntax) = syntax_set
                     .find_syntax_by_extension(file_name)
                     .or_else(|| syntax_set.find_syntax_by_extension(extension))
